@@ -30,14 +30,15 @@ VARIABLES l,        \* next line of the trace
           created,  \* set of <<id, base>> of segment files ever created
           ncrash,   \* crashes so far in this run
           flt,      \* an injected fault has fired and may still have consequences
-          trunc,    \* a tail truncation has been submitted in this run
+          clr,      \* the injected faults have been cleared (next Open is a clean restart)
+          trunc,    \* an effective truncation has been submitted on this execution path
           bad,      \* a violation was recorded in this fork: stop judging it
           ckpt,     \* mark id -> saved judge state
           cnt,      \* metric reference counters (C20)
           viol,     \* recorded violations
           nobs      \* number of observations judged (evidence)
 
-vars == <<l, fam, vis, dur, kvis, kdur, sub, created, ncrash, flt, trunc, bad, ckpt, cnt, viol, nobs>>
+vars == <<l, fam, vis, dur, kvis, kdur, sub, created, ncrash, flt, clr, trunc, bad, ckpt, cnt, viol, nobs>>
 
 ----------------------------------------------------------------------------
 (* The contract operators (Empty, First, Last, Get, PreStore, ApplyStore,   *)
@@ -49,49 +50,50 @@ GetK(f, k) == IF k \in DOMAIN f THEN f[k] ELSE {0}
 ----------------------------------------------------------------------------
 Ev == Trace[l]
 Is(k) == l <= Len(Trace) /\ Ev.ev = k
-V(clause) == viol' = viol \cup {[line |-> l, clause |-> clause]}
+V(clause) == viol' = viol \cup {[line |-> l, clause |-> clause, trunc |-> trunc, ncrash |-> ncrash]}
 Adv == l' = l + 1
 
-ZeroCnt == [appends |-> 0, entries |-> 0, htrunc |-> 0, ttrunc |-> 0, sets |-> 0, gets |-> 0, reads |-> 0]
+ZeroCnt == [appends |-> 0, entries |-> 0, bytesw |-> 0, htrunc |-> 0, ttrunc |-> 0, sets |-> 0, gets |-> 0,
+            reads |-> 0, bytesr |-> 0]
 
 Init == /\ l = 1 /\ fam = "seq" /\ vis = {Empty} /\ dur = {Empty}
         /\ kvis = <<>> /\ kdur = <<>> /\ sub = <<>> /\ created = {}
-        /\ ncrash = 0 /\ flt = FALSE /\ trunc = FALSE /\ bad = FALSE /\ ckpt = <<>>
+        /\ ncrash = 0 /\ flt = FALSE /\ clr = FALSE /\ trunc = FALSE /\ bad = FALSE /\ ckpt = <<>>
         /\ cnt = ZeroCnt /\ viol = {} /\ nobs = 0
 
 Reset == /\ Is("reset") /\ Adv
          /\ fam' = Ev.family /\ vis' = {Empty} /\ dur' = {Empty}
          /\ kvis' = <<>> /\ kdur' = <<>> /\ sub' = <<>> /\ created' = {}
-         /\ ncrash' = 0 /\ flt' = FALSE /\ trunc' = FALSE /\ bad' = FALSE /\ ckpt' = <<>>
+         /\ ncrash' = 0 /\ flt' = FALSE /\ clr' = FALSE /\ trunc' = FALSE /\ bad' = FALSE /\ ckpt' = <<>>
          /\ cnt' = ZeroCnt
          /\ UNCHANGED <<viol, nobs>>
 
 Saved == [vis |-> vis, dur |-> dur, kvis |-> kvis, kdur |-> kdur, sub |-> sub, created |-> created,
-          ncrash |-> ncrash, flt |-> flt, trunc |-> trunc, bad |-> bad, cnt |-> cnt]
+          ncrash |-> ncrash, flt |-> flt, clr |-> clr, trunc |-> trunc, bad |-> bad, cnt |-> cnt]
 
 Mark == /\ Is("mark") /\ Adv
         /\ ckpt' = PutK(ckpt, Ev.id, Saved)
-        /\ UNCHANGED <<fam, vis, dur, kvis, kdur, sub, created, ncrash, flt, trunc, bad, cnt, viol, nobs>>
+        /\ UNCHANGED <<fam, vis, dur, kvis, kdur, sub, created, ncrash, flt, clr, trunc, bad, cnt, viol, nobs>>
 
 Restore == /\ Is("restore") /\ Adv
            /\ LET s == ckpt[Ev.id] IN
               /\ vis' = s.vis /\ dur' = s.dur /\ kvis' = s.kvis /\ kdur' = s.kdur /\ sub' = s.sub
-              /\ created' = s.created /\ ncrash' = s.ncrash /\ flt' = s.flt /\ trunc' = s.trunc
+              /\ created' = s.created /\ ncrash' = s.ncrash /\ flt' = s.flt /\ clr' = s.clr /\ trunc' = s.trunc
               /\ bad' = s.bad /\ cnt' = s.cnt
            /\ UNCHANGED <<fam, ckpt, viol, nobs>>
 
 (* marks of a finished fork are dropped (keeps the judge state small) *)
 Unmark == /\ Is("unmark") /\ Adv
           /\ ckpt' = [k \in {x \in DOMAIN ckpt : x < Ev.from} |-> ckpt[k]]
-          /\ UNCHANGED <<fam, vis, dur, kvis, kdur, sub, created, ncrash, flt, trunc, bad, cnt, viol, nobs>>
+          /\ UNCHANGED <<fam, vis, dur, kvis, kdur, sub, created, ncrash, flt, clr, trunc, bad, cnt, viol, nobs>>
 
 (* everything between a violation and the next restore/reset is skipped *)
 Skip == /\ l <= Len(Trace) /\ bad /\ Ev.ev \notin {"reset", "mark", "restore", "unmark"} /\ Adv
-        /\ UNCHANGED <<fam, vis, dur, kvis, kdur, sub, created, ncrash, flt, trunc, bad, ckpt, cnt, viol, nobs>>
+        /\ UNCHANGED <<fam, vis, dur, kvis, kdur, sub, created, ncrash, flt, clr, trunc, bad, ckpt, cnt, viol, nobs>>
 
 Live(k) == Is(k) /\ ~bad /\ Adv
 
-Same == UNCHANGED <<fam, vis, dur, kvis, kdur, sub, created, ncrash, flt, trunc, ckpt, cnt>>
+Same == UNCHANGED <<fam, vis, dur, kvis, kdur, sub, created, ncrash, flt, clr, trunc, ckpt, cnt>>
 
 (* keep dur in step with vis outside the fault family (see 4.7) *)
 SetVis(S) == /\ vis' = S /\ dur' = IF fam = "fault" THEN dur ELSE S
@@ -110,11 +112,11 @@ FaultyNF == fam = "fault" /\ flt                 \* other events
 Store ==
   /\ Live("store")
   /\ NoteSub(Ev)
-  /\ flt' = (flt \/ (fam = "fault" /\ Ev.fault))
+  /\ flt' = (flt \/ (fam = "fault" /\ Ev.fault)) /\ clr' = clr
   /\ nobs' = nobs + 1
   /\ UNCHANGED <<fam, kvis, kdur, created, ncrash, trunc, ckpt>>
   /\ IF Ev.res = "ok"
-     THEN /\ cnt' = [cnt EXCEPT !.appends = @ + 1, !.entries = @ + Len(Ev.cids)]
+     THEN /\ cnt' = [cnt EXCEPT !.appends = @ + 1, !.entries = @ + Len(Ev.cids), !.bytesw = @ + Ev.nbytes]
           /\ IF MapOp(vis, Ev) = {}
              THEN /\ V("StoreAcceptedIllegal") /\ bad' = TRUE /\ UNCHANGED <<vis, dur>>
              ELSE IF MapOp(dur, Ev) = {}
@@ -135,9 +137,9 @@ NTrunc(S, op) ==     \* number of entries the truncation removes (same in every 
 
 Delete ==
   /\ Live("delete")
-  /\ flt' = (flt \/ (fam = "fault" /\ Ev.fault))
+  /\ flt' = (flt \/ (fam = "fault" /\ Ev.fault)) /\ clr' = clr
   /\ nobs' = nobs + 1
-  /\ trunc' = (trunc \/ \E s \in vis : DelClass(s, Ev.min, Ev.max) = "tail")
+  /\ trunc' = (trunc \/ \E s \in vis : DelClass(s, Ev.min, Ev.max) \in {"head", "tail"})
   /\ UNCHANGED <<fam, kvis, kdur, sub, created, ncrash, ckpt>>
   /\ IF Ev.res = "ok"
      THEN /\ LET k == {DelClass(s, Ev.min, Ev.max) : s \in vis}
@@ -161,7 +163,7 @@ Delete ==
 SetK ==
   /\ Live("set")
   /\ nobs' = nobs + 1
-  /\ flt' = (flt \/ (fam = "fault" /\ Ev.fault))
+  /\ flt' = (flt \/ (fam = "fault" /\ Ev.fault)) /\ clr' = clr
   /\ UNCHANGED <<fam, vis, dur, sub, created, ncrash, trunc, ckpt>>
   /\ cnt' = [cnt EXCEPT !.sets = @ + 1]
   /\ IF Ev.res = "ok"
@@ -179,24 +181,25 @@ Crash ==
   /\ Live("crash")
   /\ LET op == Ev.op IN
      /\ NoteSub(op)
-     /\ trunc' = (trunc \/ (op.ev = "delete" /\ \E s \in dur : DelClass(s, op.min, op.max) = "tail"))
+     /\ trunc' = (trunc \/ (op.ev = "delete" /\ \E s \in dur : DelClass(s, op.min, op.max) \in {"head", "tail"}))
      /\ LET d == MaybeOp(dur, op) IN vis' = d /\ dur' = d
      /\ IF op.ev = "set"
         THEN LET d == PutK(kdur, op.key, GetK(kdur, op.key) \cup {op.val}) IN kvis' = d /\ kdur' = d
         ELSE kvis' = kdur /\ kdur' = kdur
   /\ ncrash' = ncrash + 1
-  /\ UNCHANGED <<fam, created, flt, ckpt, cnt, viol, bad, nobs>>
+  /\ UNCHANGED <<fam, created, flt, clr, ckpt, cnt, viol, bad, nobs>>
 
 Open ==
   /\ Live("open")
   /\ nobs' = nobs + 1
-  /\ UNCHANGED <<fam, sub, created, ncrash, flt, trunc, ckpt, dur, kdur>>
+  /\ UNCHANGED <<fam, sub, created, ncrash, trunc, ckpt, dur, kdur, clr>>
   /\ cnt' = cnt
   /\ IF Ev.res = "ok"
-     THEN /\ vis' = dur /\ kvis' = kdur /\ UNCHANGED <<viol, bad>>
-     ELSE IF fam = "fault" /\ flt
-     THEN /\ bad' = TRUE /\ UNCHANGED <<vis, kvis, viol>>   \* fault still active: no verdict
-     ELSE /\ V("OpenFailed") /\ bad' = TRUE /\ UNCHANGED <<vis, kvis>>
+     THEN \* a clean restart after the faults were cleared: no fault is active any more
+          /\ vis' = dur /\ kvis' = kdur /\ flt' = (flt /\ ~clr) /\ UNCHANGED <<viol, bad>>
+     ELSE IF fam = "fault" /\ flt /\ ~clr
+     THEN UNCHANGED <<vis, kvis, flt, viol, bad>>      \* Open failed under an injected fault: allowed
+     ELSE /\ V("OpenFailed") /\ bad' = TRUE /\ UNCHANGED <<vis, kvis, flt>>
 
 Close ==
   /\ Live("close")
@@ -205,7 +208,8 @@ Close ==
 
 FaultsCleared ==
   /\ Live("faults_cleared")
-  /\ UNCHANGED <<viol, bad, nobs>> /\ Same
+  /\ clr' = TRUE
+  /\ UNCHANGED <<viol, bad, nobs, fam, vis, dur, kvis, kdur, sub, created, ncrash, flt, trunc, ckpt, cnt>>
 
 Panic ==
   /\ Live("panic")
@@ -216,7 +220,7 @@ Panic ==
 ObsFirst ==
   /\ Live("first")
   /\ nobs' = nobs + 1
-  /\ UNCHANGED <<fam, kvis, kdur, sub, created, ncrash, flt, trunc, ckpt, cnt>>
+  /\ UNCHANGED <<fam, kvis, kdur, sub, created, ncrash, flt, clr, trunc, ckpt, cnt>>
   /\ IF Ev.res # "ok" THEN /\ V("FirstError") /\ bad' = TRUE /\ UNCHANGED <<vis, dur>>
      ELSE LET S == {s \in vis : First(s) = Ev.val} IN
           IF S = {} THEN /\ V("FirstMismatch") /\ bad' = TRUE /\ UNCHANGED <<vis, dur>>
@@ -225,7 +229,7 @@ ObsFirst ==
 ObsLast ==
   /\ Live("last")
   /\ nobs' = nobs + 1
-  /\ UNCHANGED <<fam, kvis, kdur, sub, created, ncrash, flt, trunc, ckpt, cnt>>
+  /\ UNCHANGED <<fam, kvis, kdur, sub, created, ncrash, flt, clr, trunc, ckpt, cnt>>
   /\ IF Ev.res # "ok" THEN /\ V("LastError") /\ bad' = TRUE /\ UNCHANGED <<vis, dur>>
      ELSE LET S == {s \in vis : Last(s) = Ev.val} IN
           IF S = {} THEN /\ V("LastMismatch") /\ bad' = TRUE /\ UNCHANGED <<vis, dur>>
@@ -236,8 +240,8 @@ SubAt(i) == IF i \in DOMAIN sub THEN sub[i] ELSE {}
 ObsGet ==
   /\ Live("get")
   /\ nobs' = nobs + 1
-  /\ cnt' = [cnt EXCEPT !.reads = @ + 1]
-  /\ UNCHANGED <<fam, kvis, kdur, sub, created, ncrash, flt, trunc, ckpt>>
+  /\ cnt' = [cnt EXCEPT !.reads = @ + 1, !.bytesr = @ + Ev.nbytes]
+  /\ UNCHANGED <<fam, kvis, kdur, sub, created, ncrash, flt, clr, trunc, ckpt>>
   /\ LET i == Ev.idx
          got == IF Ev.res = "ok" THEN Ev.cid ELSE 0
          S == {s \in vis : Get(s, i) = got}
@@ -254,7 +258,7 @@ ObsGetK ==
   /\ Live("getk")
   /\ nobs' = nobs + 1
   /\ cnt' = [cnt EXCEPT !.gets = @ + 1]
-  /\ UNCHANGED <<fam, vis, dur, kdur, sub, created, ncrash, flt, trunc, ckpt>>
+  /\ UNCHANGED <<fam, vis, dur, kdur, sub, created, ncrash, flt, clr, trunc, ckpt>>
   /\ IF Ev.res # "ok" THEN /\ V("GetKError") /\ bad' = TRUE /\ kvis' = kvis
      ELSE IF Ev.val \in GetK(kvis, Ev.key)
      THEN /\ kvis' = PutK(kvis, Ev.key, {Ev.val}) /\ UNCHANGED <<viol, bad>>
@@ -279,7 +283,7 @@ ObsCreat ==
      ELSE IF \E p \in created : p[1] = Ev.id /\ p[2] # Ev.base THEN /\ V("SegmentIDReused") /\ bad' = TRUE
      ELSE IF Ev.res # "ok" THEN /\ V("CreateCollision") /\ bad' = TRUE
      ELSE UNCHANGED <<viol, bad>>
-  /\ UNCHANGED <<fam, vis, dur, kvis, kdur, sub, ncrash, flt, trunc, ckpt, cnt>>
+  /\ UNCHANGED <<fam, vis, dur, kvis, kdur, sub, ncrash, flt, clr, trunc, ckpt, cnt>>
 
 ObsMetrics ==
   /\ Live("metrics")
@@ -292,6 +296,9 @@ ObsMetrics ==
      ELSE IF Ev.stable_sets # cnt.sets THEN /\ V("Metric_stable_sets") /\ bad' = TRUE
      ELSE IF Ev.stable_gets # cnt.gets THEN /\ V("Metric_stable_gets") /\ bad' = TRUE
      ELSE IF Ev.log_entries_read # cnt.reads THEN /\ V("Metric_log_entries_read") /\ bad' = TRUE
+     ELSE IF Ev.log_entry_bytes_written # cnt.bytesw THEN /\ V("Metric_log_entry_bytes_written") /\ bad' = TRUE
+     ELSE IF Ev.log_entry_bytes_read # cnt.bytesr THEN /\ V("Metric_log_entry_bytes_read") /\ bad' = TRUE
+     ELSE IF Ev.segment_rotations # Ev.bg_rotations THEN /\ V("Metric_segment_rotations") /\ bad' = TRUE
      ELSE UNCHANGED <<viol, bad>>
   /\ Same
 
@@ -304,7 +311,7 @@ Finish ==
   /\ l = Len(Trace) + 1
   /\ PrintT(<<"VIOL", ToJson([v |-> viol, nobs |-> nobs])>>)
   /\ l' = l + 1
-  /\ UNCHANGED <<fam, vis, dur, kvis, kdur, sub, created, ncrash, flt, trunc, bad, ckpt, cnt, viol, nobs>>
+  /\ UNCHANGED <<fam, vis, dur, kvis, kdur, sub, created, ncrash, flt, clr, trunc, bad, ckpt, cnt, viol, nobs>>
 
 Next == \/ Reset \/ Mark \/ Restore \/ Unmark \/ Skip
         \/ Store \/ Delete \/ SetK \/ Crash \/ Open \/ Close \/ FaultsCleared \/ Panic
